@@ -80,11 +80,6 @@ for eps, tier in [("125", "quick"), ("150", "thorough")]:
     h("C17", "c17", f"c17_dedup_eps_n2_n3_e{eps}", "thorough", 1200,
       f"dedup_vertices_epsilon_n2 (batch path): n=3, D=2, coordinates in {{-1,0,1}}, eps={int(eps) / 100}: same laws",
       ["core::delaunay_triangulation::dedup_vertices_epsilon_n2", "core::util::deduplication::coords_within_epsilon"])
-h("C17", "c17", "c17_dedup_eps_quantized_fallback_first_n2", "quick", 1800,
-  "dedup_vertices_epsilon_quantized (batch path), n=2, D=2, eps=1e-10, first vertex NOT quantisable (|c| any double in "
-  "[1e9,1e300], either sign), second on {-1,0,1}^2: the fallback to the n^2 scan keeps both vertices",
-  ["core::delaunay_triangulation::dedup_vertices_epsilon_quantized", "core::delaunay_triangulation::quantize_coords",
-   "core::delaunay_triangulation::dedup_vertices_epsilon_n2"])
 h("C17", "c17", "c17_simplex_selection_n4", "thorough", 1800,
   "select_balanced_simplex_indices + reorder_vertices_for_simplex: n=4, D=2, coordinates in {-2..2}: indices distinct and in "
   "range, reordered list is a permutation starting with the selected vertices",
